@@ -6,9 +6,11 @@ package main
 // NOT decided by static analysis; see DESIGN.md.
 
 import (
+	"fmt"
 	"go/constant"
 	"go/token"
 	"go/types"
+	"os"
 	"sort"
 	"strings"
 
@@ -85,6 +87,23 @@ func rulesC19(w *World, o *Out) {
 			}
 		}
 		if getP == nil {
+			// the priority function written as a named function: whatever is stored into GetTxPriority
+			for _, b := range ndp.Blocks {
+				for _, in := range b.Instrs {
+					if st, isSt := in.(*ssa.Store); isSt {
+						if fa, isFA := st.Addr.(*ssa.FieldAddr); isFA && fieldName(fa.X.Type(), fa.Field) == "GetTxPriority" {
+							switch v := st.Val.(type) {
+							case *ssa.Function:
+								getP = v
+							case *ssa.MakeClosure:
+								getP, _ = v.Fn.(*ssa.Function)
+							}
+						}
+					}
+				}
+			}
+		}
+		if getP == nil {
 			o.Unresolved("priority closure of NewDefaultTxPriority")
 		} else {
 			o.Analysed(w.FuncKey(getP))
@@ -100,6 +119,27 @@ func rulesC19(w *World, o *Out) {
 				}
 				c, ok := s.Args()[1].(*ssa.Const)
 				if !ok || c.Value.Kind() != constant.String {
+					// table-driven form: the prefix is a field of the element of a package-level table being ranged
+					// over, and the true edge returns another field of that same element
+					if rows, okT := prefixTableRows(s); okT {
+						okOne := false
+						for _, f := range FactsAt(s.Instr) {
+							if f.Kind == FCmp && f.Op == token.EQL {
+								if k, okK := f.Y.(*ssa.Const); okK && k.Int64() == 1 {
+									if lc, okL := canon(f.Resolve(f.X)).(*ssa.Call); okL {
+										if b, okB := lc.Call.Value.(*ssa.Builtin); okB && b.Name() == "len" {
+											okOne = true
+										}
+									}
+								}
+							}
+						}
+						for _, r := range rows {
+							classes = append(classes, class{r.prefix, r.val, s.Instr.Pos()})
+							o.Check("C19.R1", "priority table|"+r.prefix+" only for single-message transactions", okOne, w.Pos(s.Instr.Pos()), "class priority must be dominated by len(msgs) == 1")
+						}
+						continue
+					}
 					o.Fail("C19.R1", "priority table|non-constant prefix", w.Pos(s.Instr.Pos()), "class prefixes must be constants")
 					continue
 				}
@@ -488,4 +528,163 @@ func rulesC19(w *World, o *Out) {
 		}
 	}
 	_ = types.Typ
+}
+
+type prefixRow struct {
+	prefix string
+	val    int64
+}
+
+// prefixTableRows: for strings.HasPrefix(x, e.P) with e the element of a package-level slice literal being
+// ranged over and `return e.V, ...` on the call's true edge: the (P, V) constants of every row of the literal.
+func prefixTableRows(s Site) (rows0 []prefixRow, ok0 bool) {
+	if os.Getenv("PCDUMP") == "c19table" {
+		defer func() { fmt.Fprintf(os.Stderr, "C19TABLE %v %v arg=%T %v\n", ok0, rows0, s.Args()[1], s.Args()[1]) }()
+	}
+	fld := func(v ssa.Value) (*ssa.FieldAddr, bool) {
+		u, ok := v.(*ssa.UnOp)
+		if !ok {
+			return nil, false
+		}
+		fa, ok := u.X.(*ssa.FieldAddr)
+		return fa, ok
+	}
+	pfa, ok := fld(s.Args()[1])
+	if !ok {
+		return nil, false
+	}
+	// element: a local copy of tbl[i] (or tbl[i] itself)
+	var elemAddr *ssa.IndexAddr
+	switch x := pfa.X.(type) {
+	case *ssa.Alloc:
+		for _, r := range *x.Referrers() {
+			if st, isSt := r.(*ssa.Store); isSt && st.Addr == ssa.Value(x) {
+				if u, isU := st.Val.(*ssa.UnOp); isU {
+					elemAddr, _ = u.X.(*ssa.IndexAddr)
+				}
+			}
+		}
+	case *ssa.IndexAddr:
+		elemAddr = x
+	}
+	if elemAddr == nil {
+		return nil, false
+	}
+	tl, isL := elemAddr.X.(*ssa.UnOp)
+	if !isL {
+		return nil, false
+	}
+	g, isG := tl.X.(*ssa.Global)
+	if !isG {
+		return nil, false
+	}
+	// the value field returned on the true edge
+	blk := s.Block()
+	iff, isIf := blk.Instrs[len(blk.Instrs)-1].(*ssa.If)
+	if !isIf || canon(iff.Cond) != ssa.Value(s.Value()) {
+		return nil, false
+	}
+	tb := blk.Succs[0]
+	ret, isR := tb.Instrs[len(tb.Instrs)-1].(*ssa.Return)
+	if !isR || len(ret.Results) == 0 {
+		return nil, false
+	}
+	vfa, ok := fld(ret.Results[0])
+	if !ok || vfa.X != pfa.X {
+		return nil, false
+	}
+	// rows of the literal in the package initialiser
+	init := g.Pkg.Func("init")
+	if init == nil {
+		return nil, false
+	}
+	var arr ssa.Value
+	stores := 0
+	for _, b := range init.Blocks {
+		for _, in := range b.Instrs {
+			if st, isSt := in.(*ssa.Store); isSt && st.Addr == ssa.Value(g) {
+				stores++
+				if sl, isSl := st.Val.(*ssa.Slice); isSl {
+					arr = sl.X
+				}
+			}
+		}
+	}
+	if arr == nil || stores != 1 {
+		return nil, false
+	}
+	// the table must not be written anywhere else
+	for _, mem := range g.Pkg.Members {
+		mf, isF := mem.(*ssa.Function)
+		if !isF || mf == init {
+			continue
+		}
+		for _, f := range WithAnon(mf) {
+			for _, b := range f.Blocks {
+				for _, in := range b.Instrs {
+					if st, isSt := in.(*ssa.Store); isSt && baseOf(st.Addr) == ssa.Value(g) {
+						return nil, false
+					}
+				}
+			}
+		}
+	}
+	var rows []prefixRow
+	for _, r := range *arr.Referrers() {
+		ia, isIA := r.(*ssa.IndexAddr)
+		if !isIA {
+			continue
+		}
+		row := prefixRow{}
+		gotP, gotV := false, false
+		takeField := func(fa *ssa.FieldAddr) {
+			for _, r4 := range *fa.Referrers() {
+				if fs, isFS := r4.(*ssa.Store); isFS {
+					if k, isK := fs.Val.(*ssa.Const); isK && k.Value != nil {
+						if fa.Field == pfa.Field && k.Value.Kind() == constant.String {
+							row.prefix, gotP = constant.StringVal(k.Value), true
+						}
+						if fa.Field == vfa.Field && k.Value.Kind() == constant.Int {
+							row.val, gotV = k.Int64(), true
+						}
+					}
+				}
+			}
+		}
+		for _, r2 := range *ia.Referrers() {
+			if fa, isFA := r2.(*ssa.FieldAddr); isFA {
+				takeField(fa) // the row written in place
+				continue
+			}
+			st, isSt := r2.(*ssa.Store)
+			if !isSt {
+				continue
+			}
+			u, isU := st.Val.(*ssa.UnOp)
+			if !isU {
+				continue
+			}
+			lit, isA := u.X.(*ssa.Alloc)
+			if !isA {
+				continue
+			}
+			for _, r3 := range *lit.Referrers() {
+				if fa, isFA := r3.(*ssa.FieldAddr); isFA {
+					takeField(fa)
+				}
+			}
+		}
+		if !gotP || !gotV {
+			if os.Getenv("PCDUMP") == "c19table" {
+				fmt.Fprintf(os.Stderr, "C19ROW %v %v %v refs=%d\n", ia, gotP, gotV, len(*ia.Referrers()))
+				for _, r2 := range *ia.Referrers() {
+					fmt.Fprintf(os.Stderr, "  ref %T %v\n", r2, r2)
+				}
+			}
+			return nil, false
+		}
+		rows = append(rows, row)
+	}
+	sort.Slice(rows, func(i, j int) bool { return rows[i].prefix < rows[j].prefix })
+	return rows, len(rows) > 0
 }
